@@ -1,5 +1,300 @@
-//! Engine `vmsim` (skeleton).
+//! Engine E2 `vmsim`: the real policy compiler, policy VM and `VmPolicy` in the loop
+//! (properties C29 and C07; DESIGN section 5).
+
+mod generate;
+mod minimise;
+mod model;
+mod policy;
+mod replica;
+mod sim;
+
+use std::collections::{BTreeMap, BTreeSet};
+
+use serde_json::json;
+use vcommon::{Cli, Evidence, Tier, Violation};
+
+use crate::{
+    generate::{Outcome, family_cfg, run_seeded},
+    sim::{Cfg, Found, Step},
+};
+
+struct Plan {
+    reports: &'static [&'static str],
+    quick_runs: u64,
+    thorough_runs: u64,
+    nontrivial: &'static str,
+}
+
+fn plan(p: &str) -> Option<Plan> {
+    match p {
+        "C29" => Some(Plan {
+            reports: &["C29"],
+            quick_runs: 36000,
+            thorough_runs: 360000,
+            nontrivial: "at least one reporter command ran against >= 2 matching rows with a count limit smaller than the number of matches (the cap truncates), and at least one map iteration published >= 2 rows",
+        }),
+        "C07" => Some(Plan {
+            reports: &["C07"],
+            quick_runs: 36000,
+            thorough_runs: 360000,
+            nontrivial: "an action failed after >= 1 of its commands had been accepted, on a replica whose committed head set had >= 2 heads",
+        }),
+        _ => None,
+    }
+}
+
+fn nontrivial(property: &str, o: &Outcome) -> bool {
+    match property {
+        "C29" => o.nontrivial_c29,
+        "C07" => o.nontrivial_c07,
+        _ => false,
+    }
+}
+
+#[derive(serde::Serialize, serde::Deserialize)]
+struct ReplayFile {
+    engine: String,
+    property: String,
+    seed: u64,
+    cfg: Cfg,
+    steps: Vec<Step>,
+    violation: Found,
+    minimised_from: usize,
+}
+
 fn main() {
+    replica::install_quiet_panic_hook();
+    if std::env::args().any(|a| a == "--print-policy") {
+        println!("{}", policy::document());
+        return;
+    }
     let cli = vcommon::parse_cli();
-    vcommon::harness_error(&format!("vmsim: property {:?} not built yet", cli.property));
+    if let Some(path) = &cli.replay {
+        std::process::exit(replay_file(&cli, path));
+    }
+    let Some(plan) = plan(&cli.property) else {
+        vcommon::harness_error(&format!("vmsim does not serve property {:?}", cli.property));
+    };
+    // `--map-values off` leaves out the `map` actions whose fact literal binds a value field
+    // (a generation switch; the oracle is the same).
+    let map_values = cli.extra.get("map-values").is_none_or(|v| v != "off");
+    if cli.has_flag("audit") {
+        std::process::exit(audit(&cli, map_values));
+    }
+    let runs = cli.extra.get("runs").and_then(|s| s.parse().ok()).unwrap_or(match cli.tier {
+        Tier::Quick => plan.quick_runs,
+        Tier::Thorough => plan.thorough_runs,
+    });
+    let max_steps: Option<usize> = cli.extra.get("steps").and_then(|s| s.parse().ok());
+    let mut ev = Evidence::new(&cli, "exploration");
+    let seed = cli.seed;
+    let property = cli.property.clone();
+    let mut counters: BTreeMap<String, u64> = BTreeMap::new();
+    let mut probes: BTreeMap<String, u64> = BTreeMap::new();
+    let mut histories: BTreeSet<u64> = BTreeSet::new();
+    let mut distinct_nontrivial: BTreeSet<u64> = BTreeSet::new();
+    let mut anomalies: Vec<String> = Vec::new();
+    let mut other: BTreeMap<String, u64> = BTreeMap::new();
+    let mut families: BTreeMap<String, u64> = BTreeMap::new();
+    let mut violations: Vec<Violation> = Vec::new();
+    let mut samples = Vec::new();
+    let mut fallback_sample = None;
+    let mut steps_total = 0u64;
+    let mut max_commands = 0usize;
+    let mut evaluations = 0u64;
+    // The batch is executed in chunks so memory stays flat in the thorough tier; the result does
+    // not depend on the chunking (run i always uses mix(seed, i), aggregation is in index order).
+    const CHUNK: u64 = 4096;
+    let mut base = 0u64;
+    while base < runs {
+        let len = CHUNK.min(runs - base);
+        let outcomes: Vec<(u64, Cfg, Outcome)> = vcommon::parallel_map(len, cli.jobs, |j| {
+            let i = base + j;
+            let s = vcommon::mix(seed, i);
+            let mut cfg = family_cfg(&property, s, i, map_values);
+            if let Some(n) = max_steps {
+                cfg.max_steps = n;
+            }
+            let mut o = run_seeded(&cfg);
+            // Step lists are kept only where they are needed (violations, sample candidates).
+            if o.found.is_empty() && i >= 256 {
+                o.steps = Vec::new();
+            }
+            (s, cfg, o)
+        });
+        base += len;
+        for (s, cfg, o) in &outcomes {
+            evaluations += 1;
+            for (k, v) in &o.stats.counters {
+                *counters.entry(k.clone()).or_insert(0) += v;
+            }
+            for (k, v) in &o.stats.probes {
+                *probes.entry(k.clone()).or_insert(0) += v;
+            }
+            *families.entry(format!("{}/{}reps", cfg.family, cfg.n_reps)).or_insert(0) += 1;
+            histories.insert(o.event_hash);
+            steps_total += o.stats.steps;
+            max_commands = max_commands.max(o.commands);
+            let nt = nontrivial(&cli.property, o);
+            if nt {
+                distinct_nontrivial.insert(o.event_hash);
+            }
+            for a in &o.stats.anomalies {
+                if anomalies.len() < 12 {
+                    anomalies.push(format!("seed {s:#x}: {a}"));
+                }
+                *counters.entry("anomalies".into()).or_insert(0) += 1;
+            }
+            let mut had_mine = false;
+            for f in &o.found {
+                if plan.reports.contains(&f.property.as_str()) {
+                    had_mine = true;
+                    if violations.len() < 6 && !violations.iter().any(|v| v.sig == f.sig && v.class == f.class) {
+                        violations.push(minimise::minimise_and_write(&cli.property, *s, cfg, &o.steps, f));
+                    }
+                } else {
+                    *other.entry(format!("{}:{}", f.class, f.sig)).or_insert(0) += 1;
+                }
+            }
+            if had_mine {
+                *counters.entry("violating_runs".into()).or_insert(0) += 1;
+            }
+            if samples.len() < 2 && nt && !o.steps.is_empty() && o.steps.len() <= 45 && o.found.is_empty() {
+                samples.push(json!({"seed": format!("{s:#x}"), "family": cfg.family, "replicas": cfg.n_reps, "steps": o.steps}));
+            }
+            if fallback_sample.is_none() {
+                fallback_sample = Some(json!({"seed": format!("{s:#x}"), "family": cfg.family, "replicas": cfg.n_reps, "steps": o.steps.iter().take(30).collect::<Vec<_>>()}));
+            }
+        }
+    }
+    if samples.is_empty() {
+        samples.extend(fallback_sample);
+    }
+    ev.evaluations = evaluations;
+    ev.distinct_nontrivial = distinct_nontrivial.len() as u64;
+    ev.rule = format!(
+        "each evaluation is one seeded simulated run of 1-3 replicas executing the real aranya-runtime ClientState with the real VmPolicy (policy document compiled at start-up by the real parser and compiler): a list of explicit steps (actions with explicit argument values drawn from small alphabets with i64 boundaries, negative ints, empty strings and strings that are prefixes of one another; complete sync sessions between replicas) drawn from PRNG streams derived from mix(seed, run index), checked step by step against a model fact store. A run counts as non-trivial when: {}. Distinct = distinct event-log hash (every step, outcome, sink transcript, head count, final fact dump).",
+        plan.nontrivial
+    );
+    ev.samples = samples;
+    ev.violations = violations.len() as u64;
+    let pick = |prefix: &str| -> BTreeMap<String, u64> { counters.iter().filter(|(k, _)| k.starts_with(prefix)).map(|(k, v)| (k[prefix.len()..].to_string(), *v)).collect() };
+    let c = |k: &str| counters.get(k).copied().unwrap_or(0);
+    ev.set("queries_evaluated", json!(pick("query.")));
+    ev.set("actions_by_kind", json!(pick("act.")));
+    ev.set("fact_writes", json!(pick("fact_writes.")));
+    ev.set("failed_actions_by_kind_and_accepted_commands_before_failure", json!(pick("fail.")));
+    ev.set("rejected_commands", json!(c("rejected_commands")));
+    ev.set("multi_head_actions", json!({"total": c("multi_head_actions"), "succeeded": c("multi_head_actions_ok"), "failed": c("multi_head_actions_failed"), "failed_after_publish": c("multi_head_failed_after_publish")}));
+    ev.set("syncs", json!(c("syncs")));
+    ev.set("merges", json!({"by_collapse_in_action": c("merges_by_collapse"), "syncs_leaving_multi_head": c("syncs_leaving_multi_head")}));
+    ev.set("faults_fired", json!({"none": 0, "note": "this engine injects no faults; failures are policy outcomes (check, test_fail, Err) chosen by the workload"}));
+    ev.set("probes", json!(probes));
+    ev.set("counters", json!(counters));
+    ev.set("families", json!(families));
+    ev.set("distinct_histories", json!(histories.len()));
+    ev.set("distinct_measure", json!("FNV hash of the per-run event log"));
+    ev.set("sim_steps", json!(steps_total));
+    ev.set("largest_graph_commands", json!(max_commands));
+    ev.set("map_actions_with_bound_value_fields_generated", json!(map_values));
+    ev.set("anomalies_outside_claimed_properties", json!(anomalies));
+    ev.set("other_property_findings_not_reported_by_this_check", json!(other));
+    ev.set("policy_document", json!({"lines": policy::document().lines().count(), "fact_schemas": policy::FACTS.iter().map(|d| d.name).collect::<Vec<_>>(), "reporter_shapes": policy::REPORTS.len(), "map_shapes": policy::MAPS.len(), "print": "vmsim --print-policy"}));
+    ev.set(
+        "components",
+        json!({
+            "real": ["aranya-policy-lang parser", "aranya-policy-compiler", "aranya-policy-vm Machine", "aranya-runtime VmPolicy (call_action, call_rule, VmPolicyIO, key/value serialisation)", "aranya-runtime ClientState::action / transaction / commit / braid", "linear storage with the in-memory IoManager of the testing module (fact indexes, compaction)", "SyncRequester / SyncResponder"],
+            "stub": ["network (sync messages are moved by the harness, no faults)", "effect sink (recording sink: begin / consume / commit / rollback transcript)", "envelope FFI (TestFfiEnvelope: hash-based command ids, no signatures)", "crypto randomness (seeded Csprng for DefaultEngine::from_entropy, DeviceId and sync session ids)", "spill (MemSpill)"],
+        }),
+    );
+    ev.assumptions = vec![
+        "the quantifier 'any stored facts / all fact schemas' is covered by the fixed schema family A[k int], B[k int, s string], C[s string, k int, b bool], E[e enum Color, k int] only".into(),
+        "multi-replica expectation: writers on different replicas touch disjoint full keys (one owner key field per schema is drawn from the acting replica's own alphabet) and every mutator reads only the key it writes, so the committed state after any merge is the union of the per-writer histories the replica holds; reporters and map read across writers".into(),
+        "stored keys are decoded by the harness's own reader of the documented order-preserving key encoding (length-prefixed field name, type tag, sign-flipped big-endian ints); a change of that encoding needs the reader updated".into(),
+        "an action that publishes no command is left undefined by the statement: either outcome is accepted, nothing may change".into(),
+        "count limit 0 is refused by the compiler, so limits are 1, 2, 3 and 1000".into(),
+        "a clean batch is evidence, not proof: the search is sampled".into(),
+    ];
+    ev.write(&cli.evidence_path());
+    let code = vcommon::report(&cli.property, &violations);
+    println!(
+        "{}: {} runs, {} steps, {} distinct histories, {} non-trivial, {} violations, {} anomalies",
+        cli.property,
+        evaluations,
+        steps_total,
+        histories.len(),
+        distinct_nontrivial.len(),
+        violations.len(),
+        c("anomalies")
+    );
+    std::process::exit(code);
+}
+
+fn replay_file(cli: &Cli, path: &std::path::Path) -> i32 {
+    let text = std::fs::read_to_string(path).unwrap_or_else(|e| vcommon::harness_error(&format!("cannot read replay {}: {e}", path.display())));
+    let rf: ReplayFile = serde_json::from_str(&text).unwrap_or_else(|e| vcommon::harness_error(&format!("bad replay file: {e}")));
+    let o = generate::replay(&rf.cfg, &rf.steps);
+    let hit = o.found.iter().find(|f| f.class == rf.violation.class && f.sig == rf.violation.sig);
+    match hit {
+        Some(f) => {
+            let v = Violation { property: rf.property.clone(), class: f.class.clone(), sig: f.sig.clone(), detail: f.detail.clone(), seed: rf.seed, replay: path.to_path_buf() };
+            println!("replay reproduces: {} at step {}", f.class, f.step);
+            vcommon::report(&cli.property, &[v])
+        }
+        None => {
+            println!("replay did not reproduce {} (found: {:?})", rf.violation.class, o.found.iter().map(|f| &f.class).collect::<Vec<_>>());
+            0
+        }
+    }
+}
+
+/// Determinism audit: N seeds, each executed twice on different worker layouts; event-log hashes
+/// must agree. Exit 2 on mismatch.
+fn audit(cli: &Cli, map_values: bool) -> i32 {
+    let n = cli.extra.get("runs").and_then(|s| s.parse().ok()).unwrap_or(200u64);
+    let seed = cli.seed;
+    let property = cli.property.clone();
+    let one = |jobs: usize| -> Vec<(u64, usize, u64)> {
+        vcommon::parallel_map(n, jobs, |i| {
+            let s = vcommon::mix(seed, i);
+            let cfg = family_cfg(&property, s, i, map_values);
+            let o = run_seeded(&cfg);
+            // The explicit step list must give the same log as the seeded run.
+            let again = generate::replay(&cfg, &o.steps);
+            (o.event_hash, o.found.len(), again.event_hash)
+        })
+    };
+    let a = one(cli.jobs);
+    let digest = |v: &[(u64, usize, u64)]| {
+        let mut h = Vec::new();
+        for x in v {
+            h.extend_from_slice(&x.0.to_le_bytes());
+            h.extend_from_slice(&(x.1 as u64).to_le_bytes());
+        }
+        vcommon::fnv(&h)
+    };
+    if cli.extra.contains_key("audit-child") {
+        // Second execution, in a separate process with another worker count.
+        println!("audit-digest {:016x}", digest(&a));
+        return 0;
+    }
+    let b = one((cli.jobs / 3).max(1));
+    for (x, y) in a.iter().zip(b.iter()) {
+        if x != y || x.0 != x.2 {
+            eprintln!("HARNESS-ERROR: nondeterminism detected: {x:?} vs {y:?}");
+            return 2;
+        }
+    }
+    let exe = std::env::current_exe().unwrap_or_else(|e| vcommon::harness_error(&format!("current_exe: {e}")));
+    let child = std::process::Command::new(exe)
+        .args(["--property", &cli.property, "--audit", "--audit-child", "1", "--runs", &n.to_string(), "--seed", &seed.to_string(), "--jobs", &(cli.jobs / 2).max(1).to_string(), "--map-values", if map_values { "on" } else { "off" }])
+        .output()
+        .unwrap_or_else(|e| vcommon::harness_error(&format!("cannot start the audit child process: {e}")));
+    let want = format!("audit-digest {:016x}", digest(&a));
+    if !String::from_utf8_lossy(&child.stdout).contains(&want) {
+        eprintln!("HARNESS-ERROR: nondeterminism detected across processes: parent {want}, child printed {:?}", String::from_utf8_lossy(&child.stdout));
+        return 2;
+    }
+    println!("audit ok: {n} seeds x 3 executions (two worker counts in this process, one in a separate process) + replay of each explicit step list: identical; digest {:016x}", digest(&a));
+    0
 }
